@@ -19,7 +19,12 @@
 
 package sql
 
-import "time"
+import (
+	"time"
+
+	"seata.apache.org/seata-go/pkg/datasource/sql/datasource"
+	"seata.apache.org/seata-go/pkg/protocol/branch"
+)
 
 // VerifSetXAConnTimeout sets the XA branch execution timeout (normally copied once
 // from the configuration by InitXA) and returns the previous value. Verification builds only.
@@ -27,4 +32,18 @@ func VerifSetXAConnTimeout(d time.Duration) time.Duration {
 	old := xaConnTimeout
 	xaConnTimeout = d
 	return old
+}
+
+// VerifXATwoPhaseCheck runs one pass of the two-phase timeout checker (normally driven by a
+// free-running one-second ticker) with the given hold time. Verification builds only.
+func VerifXATwoPhaseCheck(hold time.Duration) bool {
+	m, ok := datasource.GetDataSourceManager(branch.BranchTypeXA).(*XAResourceManager)
+	if !ok {
+		return false
+	}
+	old := m.config.TwoPhaseHoldTime
+	m.config.TwoPhaseHoldTime = hold
+	m.checkTwoPhaseTimeout()
+	m.config.TwoPhaseHoldTime = old
+	return true
 }
